@@ -878,15 +878,55 @@ func (in *Interp) evalTerm(t *gojq.Term, e *env, v any, tr *Track, k cont) error
 				if last.Index != nil || last.Iter {
 					pp := prefix
 					pp.SuffixList = prefix.SuffixList[:m-1]
-					var u *gojq.Term
-					if last.Index != nil {
-						u = &gojq.Term{Type: gojq.TermTypeIndex, Index: last.Index}
-					} else {
-						u = &gojq.Term{Type: gojq.TermTypeIdentity, SuffixList: []*gojq.Suffix{{Iter: true}}}
+					if last.Iter {
+						u := &gojq.Term{Type: gojq.TermTypeIdentity, SuffixList: []*gojq.Suffix{{Iter: true}}}
+						return in.evalTerm(&pp, e, v, tr, func(x any, tr1 *Track) error {
+							return in.evalTry(&gojq.Query{Term: u}, nil, e, x, tr1, k)
+						})
 					}
-					return in.evalTerm(&pp, e, v, tr, func(x any, tr1 *Track) error {
-						return in.evalTry(&gojq.Query{Term: u}, nil, e, x, tr1, k)
-					})
+					// jq: the key expressions of `t[k]?` are sub-expressions
+					// evaluated on the input of the whole term (not on t's
+					// value) and outside the try, start outermost, then end,
+					// then t; only the index step itself is optional.
+					x := last.Index
+					varQ := func(name string) *gojq.Query {
+						return &gojq.Query{Term: &gojq.Term{Type: gojq.TermTypeFunc, Func: &gojq.Func{Name: name}}}
+					}
+					step := func(e2 *env, ix *gojq.Index) error {
+						u := &gojq.Term{Type: gojq.TermTypeIndex, Index: ix}
+						return in.evalTerm(&pp, e, v, tr, func(tv any, tr1 *Track) error {
+							return in.evalTry(&gojq.Query{Term: u}, nil, e2, tv, tr1, k)
+						})
+					}
+					switch {
+					case x.Name != "":
+						return step(e, x)
+					case x.Str != nil:
+						return in.evalString(x.Str, nil, e, v, tr.sub(), func(key any, _ *Track) error {
+							return step(e.bindVar("$%s", key), &gojq.Index{Start: varQ("$%s")})
+						})
+					case !x.IsSlice:
+						return in.eval(x.Start, e, v, tr.sub(), func(key any, _ *Track) error {
+							return step(e.bindVar("$%s", key), &gojq.Index{Start: varQ("$%s")})
+						})
+					default:
+						withStart := func(next func(e2 *env, start *gojq.Query) error) error {
+							if x.Start == nil {
+								return next(e, nil)
+							}
+							return in.eval(x.Start, e, v, tr.sub(), func(sv any, _ *Track) error {
+								return next(e.bindVar("$%s", sv), varQ("$%s"))
+							})
+						}
+						return withStart(func(e2 *env, start *gojq.Query) error {
+							if x.End == nil {
+								return step(e2, &gojq.Index{Start: start, IsSlice: true})
+							}
+							return in.eval(x.End, e, v, tr.sub(), func(ev any, _ *Track) error {
+								return step(e2.bindVar("$%e", ev), &gojq.Index{Start: start, End: varQ("$%e"), IsSlice: true})
+							})
+						})
+					}
 				}
 			}
 			return in.evalTry(&gojq.Query{Term: &prefix}, nil, e, v, tr, k)
